@@ -40,6 +40,18 @@ func VerifC19_SimOracle() {
 	if err := pt.Add(entries...); err != nil {
 		panic(err)
 	}
+	if sym.Bool("symbolic-scaled-powers") {
+		// representation invariant of a power table: scaled powers in [0,65535]
+		// summing to ScaledTotal in [1,65535]; the values themselves are arbitrary
+		var total int64
+		for i := range pt.ScaledPower {
+			s := int64(sym.Uint16("scaled-power"))
+			pt.ScaledPower[i] = s
+			total += s
+		}
+		sym.Assume(sym.And(total >= 1, total <= 0xffff))
+		pt.ScaledTotal = total
+	}
 	base := gpbft.VerifChain(10, 1)
 	inst := ec.BeginInstance(base, pt)
 
